@@ -235,6 +235,14 @@ func ruleC04Accept2(id string) func(*Checker) {
 					est = &ks[j]
 				}
 			}
+			// acceptance delegated to a private boolean helper: its own accepting returns must be sound
+			if est == nil {
+				if h := p.acceptingHelperGuarding(g, r.Block()); h != nil {
+					okh, why := p.helperAcceptsSoundly(h)
+					c.check(okh, id, gname, fmt.Sprintf("return true %d", i), p.Pos(r.Pos()), "accepted by helper "+p.FuncName(h)+", each of whose accepting returns is guarded by a sound containment or an exact match", "the validator accepts through helper "+p.FuncName(h)+": "+why)
+					continue
+				}
+			}
 			// exact equality with an allow-listed entry is also a way in
 			if est == nil {
 				eqT, _ := condEdges(g, func(v ssa.Value) bool {
@@ -636,4 +644,62 @@ func cleanRoot(v ssa.Value, seen map[ssa.Value]bool) bool {
 		}
 	}
 	return cleanedValue(v, map[ssa.Value]bool{})
+}
+
+// acceptingHelperGuarding: block b is only reached over the true edge of a
+// call to a private bool-returning helper of g.
+func (p *Prog) acceptingHelperGuarding(g *ssa.Function, b *ssa.BasicBlock) *ssa.Function {
+	fam := p.family(g)
+	var out *ssa.Function
+	for _, ci := range callsIn(g) {
+		cl, ok := ci.(*ssa.Call)
+		if !ok {
+			continue
+		}
+		h := cl.Common().StaticCallee()
+		if h == nil || h == g || !fam[h] || h.Signature.Results().Len() != 1 || !isBoolType(h.Signature.Results().At(0).Type()) {
+			continue
+		}
+		t, _ := boolEdges(g, cl)
+		if guarded(b, t) {
+			out = h
+		}
+	}
+	return out
+}
+
+// helperAcceptsSoundly: every `return true` of the helper is established by a
+// sound containment of a cleaned subject or by an exact string match.
+func (p *Prog) helperAcceptsSoundly(h *ssa.Function) (bool, string) {
+	ks := findContainments(h)
+	n := 0
+	for _, r := range returnsOf(h) {
+		bv, isC := constBool(r.Results[0])
+		if isC && !bv {
+			continue
+		}
+		n++
+		ok := false
+		for j := range ks {
+			if ks[j].Sound && p.established(ks[j], r.Block()) && cleanedValue(ks[j].Subject, map[ssa.Value]bool{}) {
+				ok = true
+			}
+		}
+		if !ok {
+			eqT, _ := condEdges(h, func(v ssa.Value) bool {
+				bo, ok := v.(*ssa.BinOp)
+				return ok && bo.Op == token.EQL && isStringType(bo.X.Type())
+			})
+			if guarded(r.Block(), eqT) {
+				ok = true
+			}
+		}
+		if !ok {
+			return false, "an accepting return at " + p.Pos(r.Pos()) + " is not guarded by a sound containment test"
+		}
+	}
+	if n == 0 {
+		return false, "the helper never accepts"
+	}
+	return true, ""
 }
